@@ -136,6 +136,9 @@ m('neg_hello_extra_check', 'NONE', 'examples/hello-world/hello-world-listener.c'
 m('neg_setfield_local_scratch', 'NONE', U,
   '            uint32_t partialValue = value >> (fieldDescriptor->bits - processedBits - quadletBits);',
   '            uint64_t shifted = value >> (fieldDescriptor->bits - processedBits - quadletBits);\n            uint32_t partialValue = (uint32_t)shifted;')
+m('neg_heap_temp', 'NONE', 'src/avtp/acf/Can.c',
+  '    memcpy(pdu->payload, payload, payload_length);\n}',
+  '    extern void *malloc(unsigned long);\n    extern void free(void *);\n    uint8_t *tmp = malloc(payload_length ? payload_length : 1);  /* scratch copy on the heap: re-entrant */\n    if (tmp == NULL) {\n        memcpy(pdu->payload, payload, payload_length);\n        return;\n    }\n    memcpy(tmp, payload, payload_length);\n    memcpy(pdu->payload, tmp, payload_length);\n    free(tmp);\n}')
 m('neg_cvf_stricter_drop', 'NONE', 'examples/cvf/cvf-listener.c',
   '        stream_data_len - AVTP_H264_HEADER_LEN > DATA_LEN) {', '        stream_data_len - AVTP_H264_HEADER_LEN > DATA_LEN - 100) {')
 
